@@ -70,10 +70,21 @@ package helpers
 // C02 / C16: percent-escaped data URLs. The escape decision indexes a 16-entry hex table with c>>4 and
 // c&15 of a *rune*; this is in range only because every escaped rune is ASCII (the trailing region that is
 // escaped wholesale contains only bytes <= 0x20). Slices of the text stay in range and the scan terminates.
+// C02 ("the value obtained by importing a non-JavaScript file is exactly the file's bytes"): a consumer of the URL
+// percent-DECODES it and cuts it at '#', and whitespace is stripped by URL parsers. So a byte of the text may be copied
+// verbatim only if it cannot be misread: it is not a tab / newline / '#', and it is not a '%' that is followed by two hex
+// digits (which would decode to another byte). urlUnsafe(text, k) says byte k must not be copied verbatim; every
+// verbatim run handed to the builder is free of such bytes.
+//@ spec func hexDigit(c uint8) bool = (c >= '0' && c <= '9') || (c >= 'a' && c <= 'f') || (c >= 'A' && c <= 'F')
+//@ spec func urlUnsafe(s string, k int) bool = s[k] == 9 || s[k] == 10 || s[k] == 13 || s[k] == '#' ||
+//@     (s[k] == '%' && k+2 < len(s) && hexDigit(s[k+1]) && hexDigit(s[k+2]))
 //@ func EncodeStringAsPercentEscapedDataURL
 //@   arith int
 //@   safety
-//@   prop C16
+//@   prop C16 C02
+//@   opt scenario dataurl_trailing_percent_escape
+//@   site verbatim-run-is-safe: call WriteString requires forall k int :: runStart <= k && k < i && k < len(text) ==> !urlUnsafe(text, k)
+//@   loop 1 invariant verbatim-so-far: forall k int :: runStart <= k && k < i ==> !urlUnsafe(text, k)
 //@   loop 0 invariant 0 <= trailingStart && trailingStart <= n && n == len(text)
 //@   loop 0 invariant forall k int :: trailingStart <= k && k < n ==> text[k] <= 32
 //@   loop 0 decreases trailingStart
